@@ -21,6 +21,7 @@ def build(contracts):
     u.raw('impl TimeDelta {')
     for n in ['num_days', 'num_weeks']:
         u.stub(FTD, n, 'impl TimeDelta {', cid='TimeDelta::' + n)
+    u.stub_all(FTD, 'impl TimeDelta {', 'TimeDelta')
     u.raw('}\nimpl Days {')
     u.prove('src/naive/mod.rs', 'new', 'impl Days {', cid='Days::new')
     u.raw('}\nimpl NaiveDate {')
@@ -31,6 +32,7 @@ def build(contracts):
     u.assumed.append('NaiveDate::MAX')
     u.prove(FD, 'iter_days', 'impl NaiveDate {', cid='NaiveDate::iter_days')
     u.prove(FD, 'iter_weeks', 'impl NaiveDate {', cid='NaiveDate::iter_weeks')
+    u.stub_all(FD, 'impl NaiveDate {', 'NaiveDate')
     mx = [('NaiveDate::MAX.', 'NaiveDate::MAX().', 'associated const read through its contract stub')]
     for ty in ['NaiveDateDaysIterator', 'NaiveDateWeeksIterator']:
         u.raw('}\nimpl %s {' % ty)
